@@ -15,6 +15,13 @@ using namespace photon;
 #endif
 typedef channel<int> Chan;
 static Raw<Chan> CH;
+#if CAP > 0
+// typed storage for the ring queue the buffered channel allocates with posix_memalign (a raw byte arena makes every queue
+// access a byte-level extract: out of memory); same layout: the queue header followed by its slots
+struct QStore { LockfreeMPMCRingQueue<int*, 0> q; LockfreeMPMCRingQueue<int*, 0>::packedslot slots[4]; };
+static Raw<QStore> qstore;
+extern "C" int verif_memalign(void** out, size_t, size_t size) { CHECK(size <= sizeof(QStore), "queue fits its typed storage"); *out = &qstore.v; return 0; }
+#endif
 #define NSEND 2
 static uint8_t sent_ok[KN][NSEND];    // 1: send returned true, 2: returned false
 static uint8_t got[KN][NSEND];        // times the value was received
